@@ -315,6 +315,6 @@ def assumptions_for(kobs, kmeta):
             a.add("bounded: %s (%s)" % (o["id"], o.get("bound", "see unwind")))
     gen = (kmeta.get("injected") or {}).get("generated") or {}
     if gen:
-        a.add("unit table model: UNIT_CONVERSION_TABLE / KNOWN_COMPATIBILITIES rewritten mechanically into `match` (HashMap, HashSet, Lazy dropped; %d factor arms, %d set members); trusted: HashMap insert/index return what was inserted" % (gen.get("table_arms", 0), gen.get("compat_members", 0)))
+        a.add("unit table model: UNIT_CONVERSION_TABLE / KNOWN_COMPATIBILITIES rewritten mechanically into `match` (HashMap, HashSet, Lazy dropped; %d factor arms, %d set members); the model is compared natively, bit for bit, with the real Lazy<HashMap> on every run that uses it (obligation C08/N/table_model_matches_real_table)" % (gen.get("table_arms", 0), gen.get("compat_members", 0)))
         a.add("interner: Unknown units built from raw lasso keys; distinct keys = distinct strings (injective interner)")
     return sorted(a)
